@@ -9,7 +9,7 @@ export GOFLAGS=-mod=mod GOPROXY=off GOSUMDB=off GOTOOLCHAIN=local
 mkdir -p "$D"
 cp "$W/seed_patch.diff" "$D/patch.diff"
 cp "$W/seed_meta.json" "$D/agent_meta.json" 2>/dev/null
-(cd "$W" && git status --short | grep -v seed_ | grep '^??' | awk '{print $2}' | while read f; do if [ -d "$f" ]; then cp -r "$f" "$D/"; else cp "$f" "$D/"; fi; done)
+(cd "$W" && git status --short | grep -v 'seed_patch\|seed_meta' | grep '^??' | awk '{print $2}' | while read f; do if [ -d "$f" ]; then cp -r "$f" "$D/"; else cp "$f" "$D/"; fi; done)
 echo "--- demo WITH the change (must fail)"
 (cd "$W" && git apply --check -R seed_patch.diff 2>/dev/null || git apply seed_patch.diff; go test $DEMO 2>&1 | tail -3) > "$D/demo_with.txt"; tail -2 "$D/demo_with.txt"
 echo "--- demo WITHOUT the change (must pass)"
